@@ -52,6 +52,9 @@ pub struct Case {
     #[serde(default)]
     pub refit_same_thread: bool,
     pub kind: String,
+    /// how the parameter struct is built: 0 = struct literal, 1 = builder chain, 2 = builder chain in reverse order
+    #[serde(default)]
+    pub ctor: u8,
 }
 
 pub struct C06;
@@ -97,15 +100,48 @@ fn fit_once(case: &Case, ambient: &Option<TapeSpec>) -> (FitOut, Option<Box<dyn 
     let mut out = FitOut { bytes: vec![], pred: vec![], oob: None, alt: None, single: None, tall: None, repeat_mismatch: None, calls: 0, words_consumed: None, value: Value::Null, err: None };
     let mut model_box: Option<Box<dyn std::any::Any + Send>> = None;
     if case.task == "clf" {
-        let params = RandomForestClassifierParameters {
-            criterion: criterion_of(&p.criterion),
-            max_depth: p.max_depth,
-            min_samples_leaf: p.min_samples_leaf,
-            min_samples_split: p.min_samples_split,
-            n_trees: p.n_trees as u16,
-            m: p.m,
-            keep_samples: p.keep_samples,
-            seed: p.seed,
+        let params = match case.ctor % 3 {
+            0 => RandomForestClassifierParameters {
+                criterion: criterion_of(&p.criterion),
+                max_depth: p.max_depth,
+                min_samples_leaf: p.min_samples_leaf,
+                min_samples_split: p.min_samples_split,
+                n_trees: p.n_trees as u16,
+                m: p.m,
+                keep_samples: p.keep_samples,
+                seed: p.seed,
+            },
+            1 => {
+                let mut q = RandomForestClassifierParameters::default()
+                    .with_criterion(criterion_of(&p.criterion))
+                    .with_min_samples_leaf(p.min_samples_leaf)
+                    .with_min_samples_split(p.min_samples_split)
+                    .with_n_trees(p.n_trees as u16)
+                    .with_keep_samples(p.keep_samples)
+                    .with_seed(p.seed);
+                if let Some(d) = p.max_depth {
+                    q = q.with_max_depth(d);
+                }
+                if let Some(m) = p.m {
+                    q = q.with_m(m);
+                }
+                q
+            }
+            _ => {
+                let mut q = RandomForestClassifierParameters::default();
+                if let Some(m) = p.m {
+                    q = q.with_m(m);
+                }
+                if let Some(d) = p.max_depth {
+                    q = q.with_max_depth(d);
+                }
+                q.with_seed(p.seed)
+                    .with_keep_samples(p.keep_samples)
+                    .with_n_trees(p.n_trees as u16)
+                    .with_min_samples_split(p.min_samples_split)
+                    .with_min_samples_leaf(p.min_samples_leaf)
+                    .with_criterion(criterion_of(&p.criterion))
+            }
         };
         match guarded(|| RandomForestClassifier::fit(&x, &case.y, params)) {
             Err(msg) => out.err = Some(format!("panic: {}", msg)),
@@ -119,14 +155,45 @@ fn fit_once(case: &Case, ambient: &Option<TapeSpec>) -> (FitOut, Option<Box<dyn 
             }
         }
     } else {
-        let params = RandomForestRegressorParameters {
-            max_depth: p.max_depth,
-            min_samples_leaf: p.min_samples_leaf,
-            min_samples_split: p.min_samples_split,
-            n_trees: p.n_trees,
-            m: p.m,
-            keep_samples: p.keep_samples,
-            seed: p.seed,
+        let params = match case.ctor % 3 {
+            0 => RandomForestRegressorParameters {
+                max_depth: p.max_depth,
+                min_samples_leaf: p.min_samples_leaf,
+                min_samples_split: p.min_samples_split,
+                n_trees: p.n_trees,
+                m: p.m,
+                keep_samples: p.keep_samples,
+                seed: p.seed,
+            },
+            1 => {
+                let mut q = RandomForestRegressorParameters::default()
+                    .with_min_samples_leaf(p.min_samples_leaf)
+                    .with_min_samples_split(p.min_samples_split)
+                    .with_n_trees(p.n_trees)
+                    .with_keep_samples(p.keep_samples)
+                    .with_seed(p.seed);
+                if let Some(d) = p.max_depth {
+                    q = q.with_max_depth(d);
+                }
+                if let Some(m) = p.m {
+                    q = q.with_m(m);
+                }
+                q
+            }
+            _ => {
+                let mut q = RandomForestRegressorParameters::default();
+                if let Some(m) = p.m {
+                    q = q.with_m(m);
+                }
+                if let Some(d) = p.max_depth {
+                    q = q.with_max_depth(d);
+                }
+                q.with_seed(p.seed)
+                    .with_keep_samples(p.keep_samples)
+                    .with_n_trees(p.n_trees)
+                    .with_min_samples_split(p.min_samples_split)
+                    .with_min_samples_leaf(p.min_samples_leaf)
+            }
         };
         match guarded(|| RandomForestRegressor::fit(&x, &case.y, params)) {
             Err(msg) => out.err = Some(format!("panic: {}", msg)),
@@ -761,7 +828,7 @@ fn gen_case(batch: &str, _index: u64, seed: u64) -> Case {
         ops.push(pr.below(5) as u8);
     }
     pr.shuffle(&mut ops);
-    Case { task: task.into(), x, y, params, queries, ambient_a, ambient_b, pollute: pr.chance(0.5), ops, refit_same_thread: pr.chance(0.5), kind: kind.into() }
+    Case { task: task.into(), x, y, params, queries, ambient_a, ambient_b, pollute: pr.chance(0.5), ops, refit_same_thread: pr.chance(0.5), kind: kind.into(), ctor: pr.below(3) as u8 }
 }
 
 impl Property for C06 {
